@@ -119,6 +119,19 @@ class CMSys(E1):
     def cols(self, key):
         return self._probe.cols(key)
 
+    def heal(self, work, caps):
+        if not self.cfg.get("shared"):
+            return
+        from ..bfs import in_block
+
+        for i, sk in enumerate(work):
+            if not (in_block(sk.cms, sk.shm) and in_block(sk.n_added_records, sk.shm)):
+                # left behind by an earlier transition (reported there): start from a sound object
+                work[i] = self.factory()
+                if self.is_log:
+                    SK.install_draws(work[i], [])
+                restore(work[i], caps[i], self.skip)
+
     def touched(self, ev):
         return (ev[1], ev[2]) if ev[0] == "merge" else (ev[1],)
 
@@ -151,6 +164,11 @@ class CMSys(E1):
             for t in range(S):
                 if s != t:
                     yield ("merge", s, t)
+        if c.get("selfmerge", True):
+            # a sketch merged with itself (in shared memory: with a second handle attached to
+            # its own block): every true count doubles
+            for s in range(S):
+                yield ("merge", s, s)
         if c.get("saveload", True):
             for s in range(S):
                 yield ("saveload", s)
@@ -228,8 +246,14 @@ class CMSys(E1):
                 m[s][w] = m[s].get(w, 0) + 1
         elif op == "merge":
             _, s, t = ev
-            work[s].merge(work[t])
-            for k, v in m[t].items():
+            if s == t and self.cfg.get("shared"):
+                view = SK.make(self.cfg["kind"], *self.cfg["args"])
+                view.attach_existing_shm(work[s].shm.name)
+                work[s].merge(view)
+                del view
+            else:
+                work[s].merge(work[t])
+            for k, v in list(m[t].items()):
                 m[s][k] = m[s].get(k, 0) + v
         elif op == "set":
             # harness-made start state: key's cells are written directly (used only in
@@ -370,6 +394,23 @@ class CMSys(E1):
 
     def oracle(self, work, model):
         probs = []
+        if self.cfg.get("shared"):
+            # the state of a shared-memory sketch is its block: a second handle attached to it
+            # (what parallel_add's workers and mergers use) must read what the object reads
+            uni = self.universe(model)
+            for s, sk in self.active(work):
+                view = SK.make(self.cfg["kind"], *self.cfg["args"])
+                view.attach_existing_shm(sk.shm.name)
+                for k in uni:
+                    a, b = float(sk.query(k)), float(view.query(k))
+                    if a != b:
+                        probs.append(f"sketch {s}: the object estimates {a} for {k!r} but a second "
+                                     f"handle attached to its shared block reads {b}")
+                        break
+                if int(view.n_added()) != int(sk.n_added()) or int(view.n_records()) != int(sk.n_records()):
+                    probs.append(f"sketch {s}: n_added/n_records differ between the object and a "
+                                 f"second handle attached to its shared block")
+                del view
         if not (self.modes & {"bounds", "lower", "mono"}):
             return probs
         uni = self.universe(model)
